@@ -97,11 +97,16 @@ func c20History(res *Result, d *Driver, rng *Rng, root string, ct *cgroup.Contro
 	}
 	hidOf := map[*c20Handle]int{}
 	nextH := 0
+	var pars []string // "child=parent" directory ids: rmdir of a group with sub-groups fails
 	defer func() {
 		if len(mops) == 0 {
 			return
 		}
-		line := "c20.hist " + strings.Join(mops, ",")
+		ps := "-"
+		if len(pars) > 0 {
+			ps = strings.Join(pars, ",")
+		}
+		line := "c20.hist " + strings.Join(mops, ",") + " " + ps
 		model := d.Ask(line)
 		impl := strings.Join(mobs, ",")
 		if model != impl {
@@ -198,11 +203,52 @@ func c20History(res *Result, d *Driver, rng *Rng, root string, ct *cgroup.Contro
 			mops = append(mops, fmt.Sprintf("m%d:%d", nextH, did(full)))
 			mobs = append(mobs, map[bool]string{true: "E", false: "C"}[cg.Existing()])
 			nextH++
+		case op == 3 && len(handles) > 0 && rng.Chance(35): // a sub-group under one of the handles
+			h := handles[rng.Intn(len(handles))]
+			if !dirExists(h.dirs[0]) || strings.Count(h.name, "/") >= 3 {
+				continue
+			}
+			n := []string{"n1", "n2"}[rng.Intn(2)]
+			full := filepath.Join(h.name, n)
+			existed := dirExists(ctrlDirs(full)[0])
+			cg, err := h.cg.New(n)
+			key := fmt.Sprintf("%s sub-New(%s/%s) existed=%v", tag, h.name, n, existed)
+			res.Case(key+itoa(s), true, tag+"-subnew")
+			if err != nil || cg == nil {
+				bad("New under a handle failed", key, fmt.Sprint(err))
+				continue
+			}
+			if cg.Existing() != existed {
+				bad("Existing() does not say whether the sub-group was there before", key, fmt.Sprintf("Existing()=%v", cg.Existing()))
+			}
+			if _, ok := dirID[full]; !ok {
+				pars = append(pars, fmt.Sprintf("%d=%d", did(full), did(h.name)))
+			}
+			owner[full] = true
+			nh := &c20Handle{cg: cg, name: full, created: !existed, dirs: ctrlDirs(full)}
+			handles = append(handles, nh)
+			hidOf[nh] = nextH
+			mops = append(mops, fmt.Sprintf("m%d:%d", nextH, did(full)))
+			mobs = append(mobs, map[bool]string{true: "E", false: "C"}[cg.Existing()])
+			nextH++
 		case op == 3 && len(handles) > 0: // AddProc
 			h := handles[rng.Intn(len(handles))]
+			// half of the targets have several threads: the whole process must move, not only its first thread
 			k := exec.Command("/bin/sleep", "30")
+			threaded := rng.Chance(50)
+			if threaded {
+				k = exec.Command(probePath(), "thread;sleep 30000;endthread;thread;sleep 30000;endthread;sleep 30000;exit 0")
+			}
 			if err := k.Start(); err != nil {
 				continue
+			}
+			if threaded {
+				for w := 0; w < 200; w++ { // until the threads exist
+					if ts, _ := os.ReadDir(fmt.Sprintf("/proc/%d/task", k.Process.Pid)); len(ts) >= 3 {
+						break
+					}
+					time.Sleep(time.Millisecond)
+				}
 			}
 			kids = append(kids, k)
 			pid := k.Process.Pid
@@ -224,6 +270,23 @@ func c20History(res *Result, d *Driver, rng *Rng, root string, ct *cgroup.Contro
 			for _, d := range h.dirs {
 				if !procsIn(d)[pid] {
 					bad("AddProc returned nil but the process was not moved into the group (C20_addproc_moves)", key, fmt.Sprintf("pid %d not in %s/cgroup.procs", pid, d))
+				}
+				// every thread of the process
+				tf := "tasks"
+				if v2 {
+					tf = "cgroup.threads"
+				}
+				in := map[string]bool{}
+				if b, err := os.ReadFile(filepath.Join(d, tf)); err == nil {
+					for _, f := range strings.Fields(string(b)) {
+						in[f] = true
+					}
+					ts, _ := os.ReadDir(fmt.Sprintf("/proc/%d/task", pid))
+					for _, t := range ts {
+						if !in[t.Name()] {
+							bad("AddProc moved the process only partly: a thread stayed behind (C20_addproc_moves)", key, fmt.Sprintf("tid %s of pid %d not in %s/%s", t.Name(), pid, d, tf))
+						}
+					}
 				}
 			}
 			for _, o := range handles {
@@ -290,7 +353,19 @@ func c20History(res *Result, d *Driver, rng *Rng, root string, ct *cgroup.Contro
 			}
 			time.Sleep(2 * time.Millisecond)
 			before := dirExists(h.dirs[0])
+			othersBefore := map[*c20Handle]bool{}
+			for j, o := range handles {
+				if j != i && o.name != h.name {
+					othersBefore[o] = dirExists(o.dirs[0])
+				}
+			}
 			h.cg.Destroy()
+			for o, was := range othersBefore {
+				if was && !dirExists(o.dirs[0]) {
+					bad("Destroy of one handle removed the group of another handle (C20_destroy_only_own)", fmt.Sprintf("%s Destroy(%s)", tag, h.name), "group "+o.name+" is gone")
+					delete(owner, o.name)
+				}
+			}
 			key := fmt.Sprintf("%s Destroy(%s, created=%v)", tag, h.name, h.created)
 			res.Case(key+itoa(s), true, tag+"-destroy")
 			gone := before && !dirExists(h.dirs[0])
@@ -313,7 +388,13 @@ func c20History(res *Result, d *Driver, rng *Rng, root string, ct *cgroup.Contro
 			if !h.created && gone {
 				bad("Destroy of a handle that did not create the group removed it (C20_destroy_owns)", key, "group removed")
 			}
-			if h.created && before && !gone && !othersOwn {
+			hasSub := false
+			for n := range owner {
+				if strings.HasPrefix(n, h.name+"/") && dirExists(ctrlDirs(n)[0]) {
+					hasSub = true // rmdir of a group with sub-groups fails (EBUSY): leaving it is right
+				}
+			}
+			if h.created && before && !gone && !othersOwn && !hasSub {
 				bad("Destroy of the creating handle left the group behind", key, "group still exists")
 			}
 			if gone {
